@@ -185,6 +185,10 @@ func cmdCliCheck(args []string) {
 			c.Text = "/* " + strings.Repeat("padding of the script, line after line. ", 80) + "*/\n" + c.Text +
 				"\nset_tx_meta(\"long\", \"" + strings.Repeat("0123456789abcdef", 200) + "\")"
 		}
+		if c.FlagOvd && r.Intn(3) == 0 {
+			// a gated feature used WITHOUT its flag: both entry points must refuse it (a flag is off unless it is given)
+			c.FlagOvd = false
+		}
 		real := cliInput{script: c.Text, vars: c.RawVars, bal: bigBalances(c, r), meta: c.Meta}
 		if r.Intn(5) == 0 {
 			real.vars = copyVars(real.vars)
@@ -330,6 +334,31 @@ func cmdCliCheck(args []string) {
 			}
 		}
 		// the files stay until the run is over: a candidate is confirmed by running the same command line again
+	}
+	// check mode on files with very many errors: the exit status of a process keeps eight bits, so a status derived from the
+	// number of errors must not wrap to "success" (255, 256, 257, 512 error diagnostics)
+	for _, target := range []int{255, 256, 257, 512} {
+		var sb strings.Builder
+		sb.WriteString("send [USD 1] (\n source = @world\n destination = @a\n)\n")
+		for k := 0; k < target; k++ {
+			fmt.Fprintf(&sb, "set_tx_meta(\"k%d\", $undeclared_%d)\n", k, k)
+		}
+		text := sb.String()
+		res := analysis.CheckSource(text)
+		dir := filepath.Join(tmp, fmt.Sprintf("many%d", target))
+		os.MkdirAll(dir, 0o755)
+		p := filepath.Join(dir, "check.num")
+		os.WriteFile(p, []byte(text), 0o644)
+		exit, so, se, crashed := runBin(bin, []string{"check", p}, "")
+		all := true
+		for _, d := range res.Diagnostics {
+			if !strings.Contains(so, fmt.Sprintf("%d:%d", d.Range.Start.Line, d.Range.Start.Character)) || !strings.Contains(so, d.Kind.Message()) {
+				all = false
+			}
+		}
+		lw.write(J{"e": "cli", "n": cnt, "mode": "check", "cfg": []any{}, "libst": "", "libjson": "", "exit": exit, "stdout": trunc(so, 600), "msgonstderr": false, "crashed": crashed,
+			"stderr": trunc(se, 300), "script": text, "args": []string{"check", p}, "stdin": "", "nerr": countErrors(res.Diagnostics), "ndiag": len(res.Diagnostics), "headers": strings.Count(so, p+":"), "allprinted": all, "resultprinted": false})
+		cnt++
 	}
 	lw.close()
 	printJSON(J{"cases": cnt, "nontrivial": nontriv, "outcomes": outcomes, "samples": samples})
